@@ -153,7 +153,8 @@ def _work(job: t.Tuple[t.Any, ...]) -> evid.Local:
             chain = L.FilterNot(chain) if i % 3 == 0 else L.FilterAnd([chain, leaf]) if i % 3 == 1 else L.FilterOr([leaf, chain])
             if i in (9, 11, 29, 59):
                 rec(chain, "deep")
-        rec(L.FilterAnd([L.FilterEquality("cn", b"v%d*" % i) for i in range(300)]), "wide")
+        rec(L.FilterAnd([L.FilterEquality("cn", b"v%d*" % i) for i in range(1500)]), "wide")
+        rec(L.FilterSubstrings("cn", b"*", [b"%d" % i for i in range(1500)], b"\\"), "wide")
         rec(L.FilterOr([L.FilterAnd([L.FilterPresent("a%d" % i), L.FilterNot(L.FilterApproxMatch("b", b"~%d" % i))]) for i in range(64)]), "wide")
         loc.distinct.add(("large",))
     elif fam == "trees":
